@@ -118,6 +118,7 @@ class MinFlowDecompCycles(walkmodel.AbstractWalkModelDiGraph):
                 self.G_internal = nedg.NodeExpandedDiGraph(
                     G=G, 
                     node_flow_attr=flow_attr,
+                    try_filling_in_missing_flow_attr=True,
                     additional_starts=additional_starts,
                     additional_ends=additional_ends,
                 )
